@@ -9,6 +9,7 @@ import (
 	"io"
 	"os"
 	"os/exec"
+	"testing/iotest"
 	"time"
 
 	"github.com/EliCDavis/polyform/formats/ply"
@@ -25,6 +26,7 @@ type request struct {
 	Data   string `json:"data"` // base64 of the complete file
 	Cuts   []int  `json:"cuts"` // prefix lengths to decode
 	Digest bool   `json:"digest"`
+	Rk     int    `json:"rk"` // reader kind (ReaderKinds)
 }
 
 type reply struct {
@@ -34,7 +36,32 @@ type reply struct {
 
 // Decode calls the real reader of the format on data. A panic of the code
 // under test is an observation.
-func Decode(format string, data []byte, digest bool) (out Outcome) {
+// ReaderKinds: what the caller hands the decoders.  The contract of C14 (an error, or only what is wholly
+// present; never a hang) does not depend on it, the code paths do: readers test for *bufio.Reader, Read may
+// return fewer bytes than asked for, and the end of the input may arrive together with the last bytes.
+//
+//	0 *bytes.Reader   1 *bufio.Reader with the smallest buffer (16 bytes)   2 one byte per Read
+//	3 the last bytes arrive together with io.EOF   4 *bufio.Reader (4096 bytes) over one byte per Read
+const ReaderKinds = 5
+
+// PinRk >= 0 fixes the reader kind of every job (replays); otherwise the kinds rotate over the files.
+var PinRk = -1
+
+func mkReader(rk int, data []byte) io.Reader {
+	switch rk {
+	case 1:
+		return bufio.NewReaderSize(bytes.NewReader(data), 16)
+	case 2:
+		return iotest.OneByteReader(bytes.NewReader(data))
+	case 3:
+		return iotest.DataErrReader(bytes.NewReader(data))
+	case 4:
+		return bufio.NewReader(iotest.OneByteReader(bytes.NewReader(data)))
+	}
+	return bytes.NewReader(data)
+}
+
+func Decode(format string, data []byte, digest bool, rk int) (out Outcome) {
 	out = Outcome{Kind: "error", Mesh: NullMesh()}
 	defer func() {
 		if r := recover(); r != nil {
@@ -43,7 +70,7 @@ func Decode(format string, data []byte, digest bool) (out Outcome) {
 	}()
 	var mp *modeling.Mesh
 	var err error
-	in := bytes.NewReader(data)
+	in := mkReader(rk, data)
 	switch format {
 	case "ply":
 		mp, err = ply.ReadMesh(in)
@@ -102,7 +129,7 @@ func Worker() error {
 				if k > len(data) {
 					k = len(data)
 				}
-				_ = enc.Encode(reply{At: k, Out: Decode(rq.Fmt, data[:k], rq.Digest)})
+				_ = enc.Encode(reply{At: k, Out: Decode(rq.Fmt, data[:k], rq.Digest, rq.Rk)})
 				_ = w.Flush()
 			}
 		}
@@ -171,7 +198,8 @@ func Deadline(n int) time.Duration {
 
 // decoder runs decodes of prefixes of one file in worker processes.
 type decoder struct {
-	p *proc
+	p  *proc
+	rk int
 }
 
 func (d *decoder) close() {
@@ -198,7 +226,7 @@ func (d *decoder) run(format string, data []byte, cuts []int, digest bool, maxTi
 			}
 			d.p = p
 		}
-		raw, _ := json.Marshal(request{Fmt: format, Data: b64, Cuts: cs, Digest: digest})
+		raw, _ := json.Marshal(request{Fmt: format, Data: b64, Cuts: cs, Digest: digest, Rk: d.rk})
 		raw = append(raw, '\n')
 		// write asynchronously: a hung worker must not block the parent
 		go func(p *proc) { _, _ = p.stdin.Write(raw) }(d.p)
